@@ -453,6 +453,88 @@ def routing_worker(k: int, n: int, depth: int) -> Any:
     return part
 
 
+CM_EVENTS = ["report-DISCONNECTED", "report-CONNECTING", "report-CONNECTED", "main-loop-iteration"]
+
+
+def cm_case(seq: tuple[int, ...], registered: bool) -> list[tuple[str, str]]:
+    """The ConnectionManager alone, with and without a registered main loop (the thread-safe hand-off used by the threaded
+    interface): state reports may pile up before the main loop runs.  After the loop has run, the state is the last reported
+    one, every callback has seen each real transition once, in order, and `connected` is set exactly in state CONNECTED."""
+    from xknx.core import XknxConnectionState
+    from xknx.core.connection_manager import ConnectionManager
+
+    states = [XknxConnectionState.DISCONNECTED, XknxConnectionState.CONNECTING, XknxConnectionState.CONNECTED]
+    viols: list[tuple[str, str]] = []
+    with World() as w:
+        cm = ConnectionManager()
+        seen1: list[Any] = []
+        seen2: list[Any] = []
+        cm.register_connection_state_changed_cb(seen1.append)
+        cm.register_connection_state_changed_cb(seen2.append)
+        if registered:
+            t = w.spawn(cm.register_loop())
+            w.loop.settle()
+            assert t.done()
+        reported: list[Any] = []
+
+        def check(when: str) -> None:
+            want: list[Any] = []
+            cur = XknxConnectionState.DISCONNECTED
+            for st in reported:
+                if st != cur:
+                    want.append(st)
+                    cur = st
+            ctxs = f"{'registered main loop' if registered else 'no main loop'}; events={[CM_EVENTS[e] for e in seq]}; {when}: reported={[s.name for s in reported]} callback saw {[s.name for s in seen1]} state={cm.state.name} connected={cm.connected.is_set()}"
+            if seen1 != seen2:
+                viols.append(("connection-manager:callbacks-disagree", ctxs))
+            if cm.state != cur:
+                viols.append(("connection-manager:state-differs-from-last-report", ctxs))
+            elif seen1 != want:
+                kind = "repeated-state" if any(a == b for a, b in zip(seen1, seen1[1:])) else "transition-lost" if len(seen1) < len(want) else "callback-sequence-wrong"
+                viols.append((f"connection-manager:{kind}", ctxs + f" reference {[s.name for s in want]}"))
+            if cm.connected.is_set() != (cm.state == XknxConnectionState.CONNECTED):
+                viols.append(("connection-manager:connected-event-wrong", ctxs))
+
+        for e in seq:
+            if e < 3:
+                reported.append(states[e])
+                cm.connection_state_changed(states[e])
+                if not registered:
+                    check("after a report")
+            else:
+                w.loop.settle()
+                check("after a main-loop iteration")
+        w.loop.settle()
+        check("at the end")
+    out: set[str] = set()
+    return [(a, b) for a, b in viols if not (a in out or out.add(a))]
+
+
+def cm_worker(k: int, n: int, depth: int) -> Any:
+    import itertools
+    import logging
+
+    from ..runner import Part
+
+    logging.disable(logging.CRITICAL)
+    part = Part()
+    i = 0
+    for registered in (True, False):
+        for d in range(1, depth + 1):
+            for seq in itertools.product(range(len(CM_EVENTS)), repeat=d):
+                i += 1
+                if i % n != k:
+                    continue
+                viols = cm_case(seq, registered)
+                part.evaluations += 1
+                part.traces += 1
+                part.transitions += len(seq)
+                part.outcomes["connection-manager:" + ("violating" if viols else "ok")] += 1
+                for sig, detail in viols:
+                    part.viol(sig, detail, {"scenario": "connection-manager", "seq": list(seq), "registered": registered}, rank=(len(seq), seq))
+    return part
+
+
 SCENARIOS = {"tunnel": make}
 
 
@@ -464,10 +546,12 @@ def run(ctx: Ctx) -> None:
         f"{Q_EVENTS[1:]}; the gateway answers heartbeat {HB_OPTS}, reconnect {CONN_OPTS}, disconnect {DISC_OPTS}, tunnelling {ACK_OPTS}; (a CHANGE of a gateway behaviour costs one deviation, it then persists for free); a second scenario family additionally injects "
         f"{I_EVENTS[1:]} BETWEEN two loop iterations (non-quiescent); every schedule with <= {bound} deviations is executed; two more families spend the budget later in the session: one starts with a server disconnect (reconnect in progress from the first step), one with a gateway that has gone silent (14-16 steps through heartbeat failure and reconnect attempts, user send/disconnect at every point). Oracle at every iteration boundary: <=1 task in _reconnect, state-change "
         "callbacks never repeat a state and agree; at quiescent points CONNECTED => channel and transport open; after disconnect() returned: no frame sent, no tunnel task alive, state DISCONNECTED. "
-        f"Plus Routing and SecureRouting: ALL sequences of length <= 4 (thorough 5) over {R_EVENTS}: state CONNECTED exactly while the multicast connection is established, callbacks consistent, nothing sent and no task alive while disconnected"
+        f"Plus Routing and SecureRouting: ALL sequences of length <= 4 (thorough 5) over {R_EVENTS}: state CONNECTED exactly while the multicast connection is established, callbacks consistent, nothing sent and no task alive while disconnected. "
+        f"Plus the ConnectionManager alone, with and without a registered main loop (the thread-safe hand-off of the threaded interface, reports piling up before the loop runs): ALL sequences of length <= 6 (thorough 7) over {CM_EVENTS}: "
+        "state = last report, every callback sees each real transition once and in order, the connected event is set exactly in CONNECTED"
     )
     ctx.bounds = {"deviation_bound": bound, "quiescent_steps": steps}
-    ctx.assumptions = ["the threaded interface (second OS thread) is outside the virtual loop and not covered", "'connected' is judged from what the client can know: channel id and transport present"]
+    ctx.assumptions = ["the second OS thread of the threaded interface is outside the virtual loop; its hand-off into the main loop (ConnectionManager with a registered loop) is covered, with the reports issued from the loop's own thread", "'connected' is judged from what the client can know: channel id and transport present"]
     for kind in ("udp", "tcp", "secure"):
         for ar in (True, False):
             explore(ctx, __name__, "tunnel", (kind, ar, steps, False), bound=bound)
@@ -478,10 +562,14 @@ def run(ctx: Ctx) -> None:
     rdepth = 5 if ctx.thorough else 4
     ctx.bounds["routing_sequence_depth"] = rdepth
     ctx.pmap(routing_worker, [(k, 32, rdepth) for k in range(32)])
+    ctx.bounds["connection_manager_sequence_depth"] = 7 if ctx.thorough else 6
+    ctx.pmap(cm_worker, [(k, 16, 7 if ctx.thorough else 6) for k in range(16)])
     finalize_states(ctx)
 
 
 def replay(case: Any) -> list[tuple[str, str]]:
+    if case.get("scenario") == "connection-manager":
+        return cm_case(tuple(case["seq"]), bool(case["registered"]))
     if case.get("scenario") == "routing":
         return routing_case(tuple(case["seq"]), bool(case["secure"]))
     return replay_schedule(__name__, case)
